@@ -153,7 +153,7 @@ pub mod write {
     // the wire is a ghost log of the structures written
     #[verifier::external_body]
     pub fn encode_into(into: &mut Wire, tag: StructureTag) -> (r: io::Result<()>)
-        ensures r is Ok ==> final(into).out@ == old(into).out@.push(st_tree(tag)), r is Err ==> final(into).out@ == old(into).out@
+        ensures r is Ok, final(into).out@ == old(into).out@.push(st_tree(tag))      // (V-lber-enc: C07.encoder_never_fails)
     { unimplemented!() }
 }
 //@lift name=maybe_wrap file=src/protocol.rs fn=maybe_wrap nth=1
@@ -161,7 +161,7 @@ pub mod write {
 //@ ret r
 //@ spec
     // (nth=1: the definition compiled without the gssapi feature; the gssapi one may wrap the bytes in a SASL security layer)
-    ensures r is Ok ==> final(into).out@ == old(into).out@.push(st_tree(outstruct)), r is Err ==> final(into).out@ == old(into).out@, //# C02.the_encoded_request_is_written_as_it_is
+    ensures r is Ok, final(into).out@ == old(into).out@.push(st_tree(outstruct)), //# C02+C04.the_encoded_request_is_written_as_it_is_and_encoding_never_fails
 //@end
 pub trait ASNTag { spec fn stree(&self) -> T; fn into_structure(self) -> (r: StructureTag) ensures st_tree(r) == self.stree(); }
 impl ASNTag for Tag {
@@ -194,6 +194,7 @@ impl LdapCodec {
             proof { if cs0 is Some { tree_lemmas::lemma_trees3(msg@, 3); } else { tree_lemmas::lemma_trees2(msg@, 2); } }
 //@ spec
     ensures
+        r is Ok, //# C02+C04.encoding_a_request_never_fails
         r is Ok ==> final(into).out@ == old(into).out@.push(final(into).out@.last()), //# C02.one_pdu_per_request
         r is Ok ==> (msg.2 is None ==> final(into).out@.last() == t_seq(seq![t_int(msg.0 as int), tree(msg.1)])), //# C02.envelope_without_controls_rfc4511_4.1.1
         r is Ok ==> (msg.2 matches Some(cs) ==> final(into).out@.last() ==
